@@ -128,18 +128,18 @@ def e2e_cases(prop, tier, rng):
     if prop == 'C01':
         fm = ('f64',)
         cs = g_rand(rng, 2500 * k, fm) + g_mid(rng, 2500 * k, fm) + [c for c in g_fast(rng, 400 * k) if c.fmt == 'f64'] + \
-            g_seam(rng, 300 * k, fm) + g_ext(rng, 300 * k, fm, big) + g_sub(rng, 400 * k, fm) + g_trunc(rng, 300 * k, fm) + nt_pf_cases('f64', rng, scale(tier, 3, 30)) + tie_pf_cases('f64', rng, scale(tier, 12, 100)) + g_dec(rng, fm, scale(tier, 500, 20000)) + g_zlimb(rng, scale(tier, 150, 3000)) + g_limbmid(rng, fm)
+            g_seam(rng, 300 * k, fm) + g_ext(rng, 300 * k, fm, big) + g_sub(rng, 400 * k, fm) + g_trunc(rng, 300 * k, fm) + nt_pf_cases('f64', rng, scale(tier, 3, 30)) + tie_pf_cases('f64', rng, scale(tier, 12, 100)) + g_dec(rng, fm, scale(tier, 500, 20000)) + g_zlimb(rng, scale(tier, 150, 3000)) + g_topcarry(rng, scale(tier, 150, 3000)) + g_limbmid(rng, fm)
     elif prop == 'C02':
         fm = ('f32',)
         cs = g_rand(rng, 2500 * k, fm) + g_mid(rng, 3000 * k, fm) + [c for c in g_fast(rng, 400 * k) if c.fmt == 'f32'] + \
             g_seam(rng, 300 * k, fm) + g_ext(rng, 300 * k, fm, big) + g_sub(rng, 400 * k, fm) + g_trunc(rng, 300 * k, fm) + nt_pf_cases('f32', rng, scale(tier, 8, 60)) + tie_pf_cases('f32', rng, scale(tier, 12, 100)) + g_dec(rng, fm, scale(tier, 500, 20000)) + g_limbmid(rng, fm)
     elif prop == 'C04':
-        cs = g_seam(rng, 600 * k) + g_ext(rng, 1200 * k, big=big) + g_rand(rng, 2000 * k) + g_sub(rng, 300 * k) + g_mid(rng, 600 * k) + g_long(rng, scale(tier, 6, 40), big) + g_zlimb(rng, scale(tier, 200, 3000)) + g_limbmid(rng)
+        cs = g_seam(rng, 600 * k) + g_ext(rng, 1200 * k, big=big) + g_rand(rng, 2000 * k) + g_sub(rng, 300 * k) + g_mid(rng, 600 * k) + g_long(rng, scale(tier, 6, 40), big) + g_zlimb(rng, scale(tier, 200, 3000)) + g_topcarry(rng, scale(tier, 100, 2000)) + g_limbmid(rng)
     elif prop == 'C05':
-        cs = g_rand(rng, 2500 * k) + g_mid(rng, 2500 * k) + g_fast(rng, 300 * k) + g_seam(rng, 200 * k) + g_ext(rng, 200 * k) + g_sub(rng, 300 * k) + g_trunc(rng, 300 * k) + g_dec(rng, extra=scale(tier, 500, 20000)) + g_zlimb(rng, scale(tier, 100, 2000)) + g_limbmid(rng) + tie_pf_cases('f64', rng, scale(tier, 6, 60)) + tie_pf_cases('f32', rng, scale(tier, 6, 60))
+        cs = g_rand(rng, 2500 * k) + g_mid(rng, 2500 * k) + g_fast(rng, 300 * k) + g_seam(rng, 200 * k) + g_ext(rng, 200 * k) + g_sub(rng, 300 * k) + g_trunc(rng, 300 * k) + g_dec(rng, extra=scale(tier, 500, 20000)) + g_zlimb(rng, scale(tier, 100, 2000)) + g_topcarry(rng, scale(tier, 150, 3000)) + g_limbmid(rng) + tie_pf_cases('f64', rng, scale(tier, 6, 60)) + tie_pf_cases('f32', rng, scale(tier, 6, 60))
     elif prop == 'C06':
         cs = g_mid(rng, 3500 * k, deep=(20, 21, 40, 100, 400, 767, 768, 769, 770, 771, 1000, 5000)) + g_trunc(rng, 1500 * k) + \
-            [c for c in g_seam(rng, 600 * k)] + g_long(rng, scale(tier, 8, 60), big) + g_limbmid(rng)
+            [c for c in g_seam(rng, 600 * k)] + g_long(rng, scale(tier, 8, 60), big) + g_limbmid(rng) + g_topcarry(rng, scale(tier, 100, 2000))
         cs = [c for c in cs if len((c.i + c.f).lstrip('0')) >= 20]
     elif prop == 'C07':
         cs = g_sub(rng, 2500 * k) + g_ext(rng, 1500 * k, big=big) + g_mid(rng, 1500 * k, edge_only=True) + zero_sig_cases(rng, 100 * k) + [c for c in g_dec(rng) if abs(c.e) > (280 if c.fmt == 'f64' else 30)]
